@@ -518,6 +518,11 @@ func (ex *Exec) enterLoop(st *State, fc *FnCtx, li *loopInfo, pred *ssa.BasicBlo
 		return out
 	}
 	lms, lcells := ex.loopEffect(fc, li)
+	if ct != nil {
+		// axiom instances may be assumed anywhere: also before the invariants
+		// are checked (on entry and at the back edge)
+		ex.assumeUses(st, env, ct.LoopUse[li.ord])
+	}
 	if lc, open := st.open[li.head]; open {
 		// back edge: preservation
 		for _, f := range ex.frameInvariant(st, fc, lms) {
